@@ -10,5 +10,12 @@ theorem fact_manager_NextIteration : F1.Generated.skel_manager_NextIteration = F
 theorem fact_manager_MaxIterationsReached : F1.Generated.skel_manager_MaxIterationsReached = F1.Expected.skel_manager_MaxIterationsReached := by rfl
 theorem fact_cpool_startWorker : F1.Generated.skel_cpool_startWorker = F1.Expected.skel_cpool_startWorker := by rfl
 theorem fact_pool_run : F1.Generated.skel_pool_run = F1.Expected.skel_pool_run := by rfl
+theorem fact_manager_New : F1.Generated.skel_manager_New = F1.Expected.skel_manager_New := by rfl
+theorem fact_manager_makeIterationStatePool : F1.Generated.skel_manager_makeIterationStatePool = F1.Expected.skel_manager_makeIterationStatePool := by rfl
+theorem fact_cpool_maxIterationsReached : F1.Generated.skel_cpool_maxIterationsReached = F1.Expected.skel_cpool_maxIterationsReached := by rfl
+theorem fact_pool_maxIterationsReached : F1.Generated.skel_pool_maxIterationsReached = F1.Expected.skel_pool_maxIterationsReached := by rfl
+theorem fact_t_Reset : F1.Generated.skel_t_Reset = F1.Expected.skel_t_Reset := by rfl
+theorem fact_file_newStagesWorker : F1.Generated.skel_file_newStagesWorker = F1.Expected.skel_file_newStagesWorker := by rfl
+theorem fact_run_run : F1.Generated.skel_run_run = F1.Expected.skel_run_run := by rfl
 
 end F1.Props.FactsC03
